@@ -346,6 +346,10 @@ func (x *Exec) havocFootprint(st *State, callee *ssa.Function) {
 			if n, ok := t.(*types.Named); ok && n.Obj().Pkg() != nil && inRepo(n.Obj().Pkg().Path()) {
 				return !extPkgs["*dynamic*"]
 			}
+			// elements of any other slice type (strings, bytes, ...): a dependency object may keep a slice and write it in a later call
+			// that takes no slice at all, so these are preserved only when the reach calls into no dependency code whatsoever
+			// (read-only functions and assumed `modifies nothing` contracts aside) and makes no dynamic call
+			return len(extPkgs) == 0
 		}
 		// a variable reached through a pointer (*int, *string, ...): preserved when no store through such a pointer is in the
 		// reach and no dependency function in the reach is handed a pointer to that type
@@ -389,6 +393,10 @@ func (x *Exec) footprintExternalPkgs(callee *ssa.Function) map[string]bool {
 					if cf, ok := c.Common().Value.(*ssa.Function); ok && !inRepo(pkgPathOf(cf)) {
 						sig := cf.Signature
 						if readOnlyExtern(cf) {
+							continue
+						}
+						// an assumed contract that says `modifies nothing` (or `pure`) is taken at its word here as it is at the call
+						if k := x.sp.lookupFunc(cf); k != nil && k.Kind == "extern" && (k.Pure || (k.HasMod && len(k.Modifies) == 0)) {
 							continue
 						}
 						var note func(t types.Type, d int)
@@ -653,6 +661,8 @@ func resultNamesFor(sig *types.Signature, k *FuncSpec) []string {
 func (x *Exec) applyContract(st *State, in *ssa.Call, k *FuncSpec, sig *types.Signature, calleeName string, pnames []string, args []Value) Value {
 	if k.Kind != "func" {
 		x.usedExtern[k.Kind+" "+k.Ref] = true
+	} else if k.Trusted != "" {
+		x.usedExtern["trusted (not verified) contract of "+k.Ref+": "+k.Trusted] = true
 	}
 	env := x.newEnv(st, k.PkgPath)
 	ptypes := sigParamTypes(sig, len(args))
@@ -728,6 +738,29 @@ func (x *Exec) applyContract(st *State, in *ssa.Call, k *FuncSpec, sig *types.Si
 		g := x.evalBool(env, c.E)
 		x.oblige(st, "requires@"+shortCallee(calleeName), x.instrLabel(in, "call")+"."+label, g, "precondition of "+calleeName+": "+c.Src, in.Pos())
 		x.assumeIn(st, g)
+	}
+	// recursion variant: a call from the function under verification to a function that also declares a measure must strictly
+	// decrease it (lexicographically; every component is bounded below at the callee's own entry, obligation variant:bounded)
+	if k.Kind == "func" && len(k.Measure) > 0 && len(x.entryMeasure) > 0 && len(st.frames) == 1 {
+		if len(k.Measure) != len(x.entryMeasure) {
+			panic(fmt.Sprintf("contract: decreases of %s has %d components, the caller's has %d", calleeName, len(k.Measure), len(x.entryMeasure)))
+		}
+		var callee []*Term
+		for _, c := range k.Measure {
+			v, _ := x.eval(env, c.E)
+			callee = append(callee, v.(*Term))
+		}
+		var alts []*Term
+		for i := range callee {
+			var conj []*Term
+			for j := 0; j < i; j++ {
+				conj = append(conj, mkEq(callee[j], x.entryMeasure[j]))
+			}
+			conj = append(conj, mkCmp("<", callee[i], x.entryMeasure[i]))
+			alts = append(alts, mkAnd(conj...))
+		}
+		x.oblige(st, "variant@"+shortCallee(calleeName), x.instrLabel(in, "call"), mkOr(alts...), "the call of "+calleeName+" strictly decreases the recursion variant (lexicographic)", in.Pos())
+		x.variantCalls++
 	}
 	// nil discipline: pointer receiver of a contracted in-repo method must not be nil unless declared nilable
 	if k.Kind == "func" && sig.Recv() != nil && len(args) > 0 {
